@@ -225,6 +225,8 @@ def check_lattice(ctx, rng, name, fam, l, reqs, meta):
         perms = [np.array(p) for p in itertools.permutations(range(nV))]
     else:
         perms = [rng.permutation(nV) for _ in range(3)] + [np.roll(np.arange(nV), 1)]
+        # orderings in narrow integer dtypes (products and sums of indices must not be computed in the ordering's own dtype)
+        perms += [rng.permutation(nV).astype(dt) for dt in (np.uint8, np.int8, np.int16, np.uint16, np.int32) if nV - 1 <= np.iinfo(dt).max]
     for o in perms:
         for fn, kind in ((permute_vertices, "permute"), (gu.reorder_vertices, "reorder")):
             rep = lambda what, **kw: ctx.impl_violation(f"{name}: {what}", dict(op=kind, ordering=o.tolist(), **rep_base, **kw))
@@ -234,7 +236,7 @@ def check_lattice(ctx, rng, name, fam, l, reqs, meta):
                 rep(f"{kind} raised {type(ex).__name__}: {ex}"); continue
             if kind == "permute":
                 ok = np.array_equal(pl.vertices.positions, pos[o])                     # new position i = old position ordering[i]
-                new_of_old = np.argsort(o)
+                new_of_old = np.argsort(o.astype(np.int64))
             else:
                 ok = np.array_equal(pl.vertices.positions[o], pos)                     # permutation applied to indices
                 new_of_old = o
